@@ -494,7 +494,13 @@ def begin(ctx: Any, start_ms: Any, rand_replay: Optional[List[Any]] = None, fixe
     CUR.rand_log = []
     del _LAST_RAND_LOG[:]
     asyncio._set_running_loop(loop)  # type: ignore[attr-defined]
-    # lru_caches in the library key on concrete strings only; nothing to reset.
+    # process-wide memories of the library ("log this only once"): every path / replay starts from the same empty state
+    # (obligations about a full memo fill it explicitly afterwards); lru_caches key on concrete strings only: nothing to reset
+    import zeroconf._logger as _zl
+    import zeroconf._protocol.incoming as _zi
+
+    _zl.QuietLogger._seen_logs.clear()
+    _zi._seen_logs.clear()
     return loop
 
 
